@@ -42,6 +42,10 @@ JUNK = [b"", b"   \n", b"not json", b"{", b"[]", b"{}", b"null", b"5", b'"s"', b
 
 
 def content(k):
+    if k == 3:
+        # the same text as content 2 behind two blank lines: every function sits two lines lower, so
+        # a checksum that ignores surrounding whitespace (seeded change C09-4) reuses stale locations
+        return b"\n\n" + content(2)
     py = "def f%d():\n" % k + "".join("    x%d = %d\n" % (i, i) for i in range(k + 1))
     js = "function g%d() {\n" % k + "".join("  x%d = %d;\n" % (i, i) for i in range(k + 2)) + "}\n"
     c = "int h%d(int a) {\n" % k + "".join("  a = %d;\n" % i for i in range(k + 3)) + "  return a;\n}\n"
